@@ -54,8 +54,8 @@ class C01:
             sc = G.draw_scatterer(rng, sk, dmeta['extent'], dmeta['origin'],
                                   big=big)
             if rng.random() < 0.05:                 # invalid scatterer
-                sc = ('sphere', {'n': 1.5, 'r': -0.5,
-                                 'center': [1, 1, 5]}, {'kind': 'sphere'})
+                sc = ('sphere', {'n': 1.5, 'r': 0.5, 'center': None},
+                      {'kind': 'sphere'})
             recipes['sc'].append(sc)
             th = G.draw_theory(rng, tk)
             thi = None
@@ -80,7 +80,8 @@ class C01:
                         if rng.random() < 0.4:
                             percall.pop(k)
                     percall = percall or None
-            tuples.append({'det': di, 'sc': len(recipes['sc']) - 1,
+            tuples.append({'far': bool(dmeta.get('far')),
+                           'det': di, 'sc': len(recipes['sc']) - 1,
                            'th': thi, 'thkind': tk, 'optics': percall,
                            'scaling': rng.choice(
                                [1.0, 0.8, rfloat(rng, 0.1, 2.0, 4)]),
@@ -117,6 +118,10 @@ class C01:
                        {'n': 0, 'mode': rng.choice(['noconv', 'nan'])})
                 armed = True
             kind = rng.choice(kinds_w)
+            if t['far']:
+                # far-field point detectors (r = infinity) are for
+                # scattering matrices only (documented)
+                kind = 'scat_matrix'
             det = ensure('det', t['det'])
             sc = ensure('sc', t['sc'])
             if t['th'] is not None:
@@ -133,9 +138,8 @@ class C01:
                 args['kind'] = 'holo'
                 args['scaling'] = 0.0
             if kind == 'cross_sections' and not (
-                    t['sckind'] in ('sphere', 'layered', 'spheres') and
-                    t['thkind'] in ('Mie', 'MieFar', 'Multisphere', 'auto',
-                                    'classMie')):
+                    t['sckind'] in ('sphere', 'layered') and
+                    t['thkind'] in ('Mie', 'MieFar', 'auto', 'classMie')):
                 kind = 'holo'
                 args['kind'] = 'holo'
                 args['scaling'] = t['scaling']
@@ -179,8 +183,10 @@ class C01:
                         rec.get('status'), tags.get('k')),
                     sig='C01.died:' + str(tags.get('k'))))
                 continue
+            valid = G.calc_is_valid(ex, rec)
+            fired = bool((rec.get('faults') or {}).get('solver'))
             if rec['outcome'] == 'exc':
-                if tags.get('armed'):
+                if tags.get('armed') and fired:
                     ex.stats['oracle_sim'] += 1
                     if rec['exc'] not in ('MultisphereFailure',):
                         ex.add(violation(
@@ -188,7 +194,7 @@ class C01:
                             'armed solver failure surfaced as %s: %s' % (
                                 rec['exc'], rec['msg']),
                             sig='C01.solver-fault:' + rec['exc']))
-                elif rec['exc'] in UNEXPECTED_EXC:
+                elif valid and rec['exc'] in UNEXPECTED_EXC:
                     ex.add(violation(
                         'C01.accepts', ev['id'],
                         'calc %s %s raised %s: %s' % (
@@ -202,13 +208,15 @@ class C01:
                 continue
             # --- finite
             ex.stats['oracle_sampled'] += 1
-            if tags.get('armed') and rec.get('faults', {}).get('solver'):
+            if tags.get('armed') and fired:
                 # a fault fired, yet the call returned: must not be garbage
                 if not O.all_finite(p):
                     ex.add(violation(
                         'C01.solver-fault', ev['id'],
                         'armed solver failure returned non-finite values',
                         sig='C01.solver-fault:nonfinite'))
+                continue
+            if not valid:
                 continue
             if not O.all_finite(p):
                 ex.add(violation(
